@@ -60,7 +60,7 @@ def fnMarker : Val := .str ("<fn>".toUTF8.toList.map UInt8.toNat)
 
 open KotoVerif.Bind in
 
-def parseDef : Sexp → Option (FnDef × List Val × List Val)
+def parseDef : Sexp → Option (FnDef × List Val × List Val × List (Nat × Val))
   | .list (.atom "fn" :: .list (.atom "ps" :: ps) :: oc :: va :: .list (.atom "caps" :: caps) ::
            .list (.atom "dv" :: dv) :: .list (.atom "cv" :: cv) :: rest) => do
     let ps ← ps.mapM parseParam
@@ -70,12 +70,19 @@ def parseDef : Sexp → Option (FnDef × List Val × List Val)
     let dv ← dv.mapM parseVal
     let cv ← cv.mapM parseVal
     let selfIdx : Option Nat := match rest with
-      | [.list [.atom "self", j]] => j.nat?
+      | .list [.atom "self", j] :: _ => j.nat?
       | _ => none
+    -- `(late (n v)*)`: ids exported after the function was created, with their values at call time
+    let lates : List (Nat × Val) := match rest with
+      | [_, .list (.atom "late" :: ls)] => ls.filterMap (fun l => match l with
+        | .list [n, v] => do pure ((← n.nat?), (← parseVal v))
+        | _ => none)
+      | _ => []
     let srcs : List CapSrc := (List.range cv.length).zip cv |>.map (fun (j, v) =>
       if selfIdx == some j then CapSrc.self else CapSrc.val v)
     let all := createCaptures dv srcs fnMarker
-    pure ({ params := ps, optCount := oc, variadic := va == 1, captures := caps }, all.take dv.length, all.drop dv.length)
+    pure ({ params := ps, optCount := oc, variadic := va == 1, captures := caps, lates := lates.map (·.1) },
+          all.take dv.length, all.drop dv.length, lates)
   | _ => none
 
 open KotoVerif.Bind in
@@ -90,7 +97,7 @@ def tagKey : List Nat := "tag".toUTF8.toList.map UInt8.toNat
 open KotoVerif.Bind in
 def handleBind (d : Sexp) (c : Sexp) : String :=
   match parseDef d, c with
-  | some (d, dv, cv), .list [.atom form, g, x, .list (.atom "args" :: args)] =>
+  | some (d, dv, cv, exports), .list [.atom form, g, x, .list (.atom "args" :: args)] =>
     match args.mapM parseCallArg with
     | none => "bad-request"
     | some args =>
@@ -106,16 +113,21 @@ def handleBind (d : Sexp) (c : Sexp) : String :=
       match bound with
       | none => "bad-request"
       | some bound =>
-        match enter d bound with
+        -- late-bound ids are read (in order) after the registers; the first failure ends the call
+        let lateVals : Except Err (List Val) := do
+          let rs ← bound
+          let rs ← execUs rs (prologue d)
+          mapExcept (readLate d rs exports) d.lates
+        match (do let r ← enter d bound; let l ← lateVals; pure (r.1, r.2, l) : Except Err (Val × List Val × List Val)) with
         | .error e => e.name
-        | .ok (self, vals) =>
+        | .ok (self, vals, lvals) =>
           let tag := match self with
             | .map es => (lookupKey tagKey es).getD .null
             | _ => .null
           -- name 0 = the function itself: the body reports `f == null`
           let vals := (d.names.zip vals).map (fun (n, v) =>
             if n == 0 then (match v with | .null => Val.bool true | _ => Val.bool false) else v)
-          valStr (.tuple (tag :: vals))
+          valStr (.tuple (tag :: vals ++ lvals))
   | _, _ => "bad-request"
 
 open KotoVerif.Bind in
@@ -338,7 +350,7 @@ def handle (line : String) : String :=
   | [.atom "bind", d, c] => handleBind d c
   | [.atom "prologue", d] =>
     (match parseDef d with
-    | some (d, _, _) => " ".intercalate ((Bind.prologue d).map uinstrStr) ++ s!" tb={Bind.tempBase d}"
+    | some (d, _, _, _) => " ".intercalate ((Bind.prologue d).map uinstrStr) ++ s!" tb={Bind.tempBase d}"
     | none => "bad-request")
   | .atom "cap" :: es => handleCap es
   | .atom "capx" :: es => handleCapx es
